@@ -190,6 +190,12 @@ size_t BatchPageAllocator::page_size() const noexcept {
 
 void* BatchPageAllocator::allocate() noexcept {
   auto& local = _cache.local();
+  // 未调用过set_batch_size时，线程缓存尚未按默认批量大小初始化
+  if (ABSL_PREDICT_FALSE(local.buffer.size() != _batch_size &&
+                         local.next_page == local.buffer.end())) {
+    local.buffer.resize(_batch_size);
+    local.next_page = local.buffer.end();
+  }
   if (local.next_page < local.buffer.end()) {
     return *local.next_page++;
   }
